@@ -255,7 +255,10 @@ func c17(c *ev.Ctx) {
 		}
 	})
 	// (d) string-ish built-ins vs the model, every argument type
-	argVals := append(c01Values(), model.Str("  Pad  "), model.Str("MiXeD"), model.Str("12"), model.Str("-7"), model.Str("3.50"), model.Str(" 4"), model.Str("1e3"), model.Str("ÀÉ"), model.Float(3), model.Float(-0.25), model.Int(-42))
+	argVals := append(c01Values(), model.Str("  Pad  "), model.Str("MiXeD"), model.Str("12"), model.Str("-7"), model.Str("3.50"), model.Str(" 4"), model.Str("1e3"), model.Str("ÀÉ"), model.Float(3), model.Float(-0.25), model.Int(-42),
+		// numbers in every notation a careless conversion might accept or misread
+		model.Str("010"), model.Str("-017"), model.Str("08"), model.Str("0099"), model.Str("007"), model.Str("0x1F"), model.Str("0b101"), model.Str("0o17"), model.Str("1_000"), model.Str("+5"), model.Str("12 "), model.Str("0.5"), model.Str(".5"), model.Str("5."),
+		model.Str("Inf"), model.Str("-inf"), model.Str("NaN"), model.Str("0x1p-2"), model.Str("1e400"), model.Str("9223372036854775807"), model.Str("9223372036854775808"), model.Str("-9223372036854775808"), model.Str("١٢"), model.Str("１２"))
 	fns1 := []string{"len", "lower", "upper", "trim", "string", "int", "float", "type", "keys"}
 	var jobs []gast.Expr
 	for _, fn := range fns1 {
